@@ -270,12 +270,29 @@ def classify(clause, case, verdict):
 def run(ctx):
     facts = gen(ctx)
     ctx.cov["gen_facts"] = facts
+    ctx.cov["gen_sources"] = [GOV, TBG, FAC, TBC]
     if facts is not None:
         ctx.prove(families=("gov",))
+    else:
+        ctx.lake_build(["drv_gov"])
     ov = ctx.overlay(OVERLAY, p2p_stub=True)
     if ov is None:
         return
-    rc, out = ctx.go_test("node", "./cmd/guardiand", "^TestVerifC15Gov$", ov)
+    env = {}
+    rp = getattr(ctx, "replay", None)
+    if rp:
+        # re-execute the recorded request(s) against the real code of the current tree
+        import json
+        rec = json.load(open(rp))
+        lines = (rec.get("replay") or {}).get("case") or []
+        if not lines:
+            ctx.broken.append(("tie", "replay", "replay file %s carries no case lines (kind=%s)" % (rp, rec.get("kind"))))
+            return
+        rfile = os.path.join(ctx.work, "replay.in")
+        with open(rfile, "w") as f:
+            f.write("\n".join(lines) + "\n")
+        env["VERIF_REPLAY"] = rfile
+    rc, out = ctx.go_test("node", "./cmd/guardiand", "^TestVerifC15Gov$", ov, env=env)
     src = os.path.join(ctx.work, "gov.cases")
     if rc != 0 or not os.path.exists(src):
         ctx.broken.append(("tie", "go-harness", out[-800:]))
@@ -293,3 +310,31 @@ def run(ctx):
     ctx.cov["distinct_nontrivial"] += n_ok
     ctx.cov["samples"] += samples
     ctx.cov["generator_distribution"] = kinds
+    ctx.cov["rule"] = (
+        "each case is one InjectGovernanceVAARequest, passed through protobuf Marshal/Unmarshal and then through the real "
+        "(*nodePrivilegedService).InjectGovernanceVAA on two service instances with different histories. Single-message requests of "
+        "each of the nine kinds (+ unset oneof) with field values across and beyond the wire ranges (chain ids and target chains up to "
+        "2^32-1, consistency level up to 2^32-1, set index incl. 2^32-2 / 2^32-1, module names of 0/31/32/33/64+ bytes incl. multi-byte "
+        "runes, hex fields valid / one byte short or long / odd length / one non-hex character / 0x prefix, guardian lists of 0..30 keys "
+        "with duplicates, case variants, zero address, malformed keys), fixed boundary sweeps, 65535/65536/65537 sequences and refund "
+        "address bytes, and 2-5-message requests mixing valid and invalid messages. distinct_nontrivial = cases on which the model "
+        "predicted the exact status code, message, injected VAAs and the Spec (parser-side decoding at the extracted Ralph offsets, "
+        "envelope, digest = Keccak^2(body), purity) held on the implementation's own results")
+    ctx.cov["trusted_base"] += [
+        "checks/c15.py: regex extraction of the Ralph parsers (slice bounds, conversion widths, ActionId bytes, module constants, size "
+        "equations) from governance.ral, token_bridge_governance.ral, token_bridge_factory.ral, token_bridge_for_chain.ral; the contracts "
+        "are never executed (no compiler / VM offline); Whv.Gov.Ral is a hand model of the parsers' control flow around those constants",
+        "harness/guardiand/c15_gov_verif_test.go (generator, canonical rendering, Keccak recomputation) and Whv/Driver/Gov.lean (comparison)",
+        "tools/p2pstub: package guardiand is compiled with the body of p2p.Run stubbed (quic-go does not build on this Go)",
+        "Keccak-256 is an oracle (digest equality is derived from equality of signing bodies)",
+        "protobuf / gRPC transport: requests are round-tripped through proto.Marshal/Unmarshal, the gRPC server itself is not started",
+    ]
+    ctx.assumptions += [
+        "requests are those protobuf can carry: uint32/uint64 fields in range, strings valid UTF-8 (Req.WF / Payload.WF in the theorems)",
+        "the model follows the code repaired by fixes/C15-governance-range-checks.diff; on the unrepaired tree the Spec clauses "
+        "request-panic-*, *-lossy report the defects with the failing request",
+        "a request whose k-th message is invalid has already injected the VAAs of messages 0..k-1 (InjectGovernanceVAA is not atomic); "
+        "this is modelled as is and not counted as a violation: every injected VAA individually satisfies the property",
+        "the contracts' semantic assertions on values (non-empty sequence list, remote chain != local chain, isAssetAddress) are outside "
+        "the layout/losslessness statement and not modelled",
+    ]
